@@ -154,6 +154,70 @@ def to_json(x):
     return json.loads(json.dumps(x, cls=JSONEncoder))
 
 
+def object_universe(ck):
+    """MC_SchemaTrans: parse_object as transcribed composed with the lookup loop as transcribed (DataLoops!Run), judged by the TLA+ validator
+    over every object schema of the fragment x every instance; the universe is exported by TLC, every schema is built by the real
+    JsonSchemaParser and run on every instance under strict options, judged by TLC and compared with the model"""
+    import os
+    import shutil
+    from utype import Options, type_transform
+    from utype.specs.json_schema.parser import JsonSchemaParser
+    mc = tlc.run("MC_SchemaTrans", "MC_SchemaTrans.cfg")
+    ck.mc(mc, "MC translator + loop")
+    if mc.invariant_violated:
+        ck.count("model_only_counterexamples")
+        ck.note("model-level counterexample: translator and lookup loop as transcribed violate %s" % mc.invariant_violated)
+    wit = tlc.run("MC_SchemaTrans", "MC_SchemaTrans_witness.cfg", workers=1, extra=("-continue",))
+    missing = [w for w in ("W_Accepts", "W_RejectsRequired", "W_RejectsExtra", "W_RejectsDependent") if "Invariant %s is violated" % w not in wit.output]
+    if missing:
+        raise MachineryError("vacuity: %s unreachable in MC_SchemaTrans" % missing)
+    d = tlc.scratch("st-")
+    try:
+        out = os.path.join(d, "cases.ndjson")
+        tlc.run("Export_SchemaTrans", "Export_SchemaTrans.cfg", env={"OUT_CASES": out}, workers=1)
+        rows = [json.loads(l) for l in open(out) if l.strip()]
+    finally:
+        shutil.rmtree(d, ignore_errors=True)
+    if sum(len(r["insts"]) for r in rows) != mc.distinct:
+        raise MachineryError("exported universe is not the one TLC explored (%d states)" % mc.distinct)
+    strict = Options(no_explicit_cast=True, no_data_loss=True)
+    recs = []
+    for si, r in enumerate(rows):
+        s = r["s"]
+        sch = {"type": "object", "properties": {p: {"type": "integer"} for p in s["props"]}}
+        if s["required"]:
+            sch["required"] = list(s["required"])
+        if s["addl"] != "absent":
+            sch["additionalProperties"] = {"true": True, "false": False, "schema": {"type": "integer"}}[s["addl"]]
+        if s["dep"]:
+            sch["dependentRequired"] = {a: [b] for a, b in s["dep"]}
+        T = JsonSchemaParser(sch)()
+        for ii, inst in enumerate(r["insts"]):
+            j = {e["k"]: (e["v"]["n"] if e["v"]["k"] == "int" else e["v"]["s"]) for e in inst}
+            try:
+                v = type_transform(j, T, options=strict)
+                ok, outj = True, to_json(v)
+            except Exception:
+                ok, outj = False, None
+            recs.append({"id": "t%d-%d" % (si, ii), "s": s, "inst": inst, "ok": ok, "v": jv(outj), "src": json.dumps(sch), "jin": j, "jout": outj})
+    res = tlc.judge("Trace_SchemaTrans", "Trace_SchemaTrans.cfg", [{k: v for k, v in x.items() if k not in ("src", "jin", "jout")} for x in recs], workers=8)
+    ck.mc(res, "Trace translator universe")
+    if res.distinct != len(recs):
+        raise MachineryError("trace acceptance (translator universe): TLC visited %d states, expected %d" % (res.distinct, len(recs)))
+    ck.judged(len(recs))
+    ck.count("universe_cases_replayed_into_code", len(recs))
+    byid = {x["id"]: x for x in recs}
+    for t in res.tagged("VIOL"):
+        x = byid[t[1]]
+        ck.violation("C15|Sound|object-universe|%s" % x["src"][:120], "Sound", x)
+    dv = res.tagged("DIV")
+    if dv:
+        ck.count("divergences", len(dv))
+        for t in dv[:5]:
+            x = byid[t[1]]
+            ck.note("divergence: translator + loop as transcribed differ from the built type on %s with %s -> %s" % (x["src"][:140], x["jin"], x["jout"] if x["ok"] else "rejected"))
+
+
 def main():
     ck = Check("C15")
     thorough = ck.tier == "thorough"
@@ -195,6 +259,7 @@ def main():
             if has_big(rec["v"]) or has_big(rec["schema"]):
                 continue
             records.append(rec)
+    object_universe(ck)
     byid = {r["id"]: r for r in records}
     res = tlc.judge("Trace_SchemaParse", "Trace_SchemaParse.cfg", [{k: v for k, v in r.items() if k not in ("src", "inst", "sobj", "jin", "jout")} for r in records], workers=16)
     ck.mc(res, "Trace")
